@@ -41,6 +41,112 @@ fn variants_named(f: &FnInfo, en: &[String]) -> BTreeSet<String> {
     out
 }
 
+/// C09.scope: the name under which named numbers / enumerals in a constraint are looked up is the governing type.
+/// For a constrained type reference `Level ::= Zone (low..high)` the governing type is `Zone`, so the call that links the
+/// reference's constraints must be handed the *referenced* identifier, not the enclosing assignment's name.
+fn scope(m: &Model, ctx: &mut Ctx) {
+    let Some(f) = m.fns.iter().find(|f| f.name == "link_constraint_reference" && f.self_ty.as_deref() == Some("ASN1Type")) else {
+        ctx.fail_closed("C09.scope", "anchor not found: ASN1Type::link_constraint_reference");
+        return;
+    };
+    ctx.func(&f.key);
+    // first non-self parameter = the enclosing assignment's name
+    let encl = f.sig.inputs.iter().filter_map(|a| match a {
+        syn::FnArg::Typed(t) => Some(tok(&t.pat)),
+        _ => None,
+    }).next().unwrap_or_default();
+    let Some(top) = model::matches_in(&f.block).into_iter().find(|mt| tok(&mt.expr) == "self") else {
+        ctx.fail_closed("C09.scope", "link_constraint_reference has no `match self`");
+        return;
+    };
+    let mut elsewhere_seen = 0;
+    let mut calls_seen = 0;
+    for arm in &top.arms {
+        let pat = tok(&arm.pat);
+        // local lets of the arm body
+        struct L {
+            lets: Vec<(String, String)>,
+            calls: Vec<(String, usize)>,
+        }
+        impl model::DeepCb for L {
+            fn expr(&mut self, e: &syn::Expr) {
+                if let syn::Expr::MethodCall(mc) = e {
+                    if mc.method == "link_cross_reference" || mc.method == "link_constraint_reference" {
+                        if let Some(a) = mc.args.first() {
+                            self.calls.push((tok(a), model::line_of(syn::spanned::Spanned::span(mc))));
+                        }
+                    }
+                }
+            }
+            fn local(&mut self, l: &syn::Local) {
+                if let (syn::Pat::Ident(pi), Some(init)) = (&l.pat, &l.init) {
+                    self.lets.push((pi.ident.to_string(), tok(&init.expr)));
+                }
+            }
+        }
+        let mut l = L { lets: vec![], calls: vec![] };
+        model::deep_walk_expr(&arm.body, &mut l);
+        let resolve = |a: &str| -> String {
+            let mut s = a.trim_start_matches('&').to_string();
+            for _ in 0..4 {
+                if let Some((_, init)) = l.lets.iter().find(|(n, _)| *n == s) {
+                    s = init.trim_start_matches('&').to_string();
+                }
+                for suf in [".clone()", ".to_owned()", ".to_string()", ".as_str()"] {
+                    if let Some(x) = s.strip_suffix(suf) {
+                        s = x.to_string();
+                    }
+                }
+            }
+            s
+        };
+        let is_elsewhere = pat.contains("ElsewhereDeclaredType(");
+        let binding = pat.split("ElsewhereDeclaredType(").nth(1).map(|r| r.trim_end_matches(')').to_string()).unwrap_or_default();
+        for (a, line) in &l.calls {
+            calls_seen += 1;
+            let r = resolve(a);
+            ctx.oblige("C09.scope", &format!("{}:{}", pat, a), true);
+            if is_elsewhere {
+                elsewhere_seen += 1;
+                if r != format!("{}.identifier", binding) {
+                    ctx.violate("C09.scope", "reference-constraints-linked-under-enclosing-name", &f.file, *line,
+                        &format!("the constraints of a constrained type reference are linked under `{}` (resolves to `{}`) instead of the referenced type `{}.identifier`: a named number in `Level ::= Zone (low..high)` is then not found in Zone first but in whichever type defining `low` sorts first", a, r, binding));
+                }
+            } else if r != encl && !r.contains(".identifier") && !r.contains(".name") {
+                ctx.violate("C09.scope", &format!("unrecognised-scope:{}", pat), &f.file, *line,
+                    &format!("arm `{}` links constraints under `{}` (resolves to `{}`), which is neither the enclosing assignment's name `{}` nor a name taken from the matched type", pat, a, r, encl));
+            }
+        }
+    }
+    ctx.floor("C09.scope:elsewhere-arm-calls", elsewhere_seen, 1);
+    ctx.floor("C09.scope:calls", calls_seen, 10);
+
+    // the lookup itself: the governing type is searched before any other type
+    match m.find_fn(None, "find_tld_or_enum_value_by_name", None) {
+        Ok(g) => {
+            ctx.func(&g.key);
+            let tname = g.sig.inputs.iter().filter_map(|a| match a {
+                syn::FnArg::Typed(t) => Some(tok(&t.pat)),
+                _ => None,
+            }).next().unwrap_or_default();
+            let calls: Vec<String> = model::method_calls_in(&g.block).iter().filter(|mc| mc.method == "get_distinguished_or_enum_value").map(|mc| mc.args.first().map(|a| tok(a)).unwrap_or_default()).collect();
+            ctx.oblige("C09.scope", "typed-lookup-first", true);
+            let typed = format!("Some({})", tname);
+            match calls.first() {
+                Some(c) if *c == typed => {}
+                other => ctx.violate("C09.scope", "typed-lookup-first", &g.file, g.line,
+                    &format!("find_tld_or_enum_value_by_name must first search the governing type (`get_distinguished_or_enum_value({}, ..)`), found first call with `{:?}`", typed, other)),
+            }
+            ctx.oblige("C09.scope", "untyped-fallback", true);
+            if calls.iter().any(|c| c == "None") {
+                ctx.violate("C09.scope", "untyped-fallback", &g.file, g.line,
+                    "a named number that is not found under the given type name is looked up in *every* type, in map (alphabetical) order, and the first hit wins: for an inline member type the given name is the enclosing assignment, so the member's own named numbers lose against any type that sorts earlier and defines the same identifier");
+            }
+        }
+        Err(e) => ctx.fail_closed("C09.scope", &format!("anchor not found: {}", e)),
+    }
+}
+
 pub fn run(m: &Model, ctx: &mut Ctx) {
     ctx.explanation = "C09.sym: each detector/rewriter pair of the linker (contains_components_of_notation / link_components_of_notation, has_choice_selection_type / link_choice_selection_type, \
 contains_constraint_reference / link_constraint_reference, references_class_by_name / resolve_class_reference) must traverse the same container variants of ASN1Type: a container the detector enters but the rewriter does not (or vice versa) leaves a notation unexpanded at that position. \
@@ -80,6 +186,8 @@ Not applicable: the equivalence sugared = expanded itself, independence from the
         }
         ctx.sample(json!({"pair": [d, r], "detector_variants": dv, "rewriter_variants": rv}));
     }
+
+    scope(m, ctx);
 
     // ---------------- splice ----------------
     if let Some(f) = m.fns.iter().find(|f| f.name == "link_components_of_notation" && f.self_ty.as_deref() == Some("ASN1Type")) {
